@@ -184,9 +184,11 @@ fn run_keyed(groups: &[RuleGroup], lines: &[String], into: &[String]) -> Result<
     match rec.result {
         Ok(Ok(v)) => Ok(v),
         Ok(Err(e)) => Err(err_key(&e)),
-        Err(p) => Err(format!("PANIC {}", panic_msg(&p))),
+        Err(p) => if p.downcast_ref::<v::BudgetExhausted>().is_some() { Err("BUDGET".to_string()) } else { Err(format!("PANIC {}", panic_text(&p))) },
     }
 }
+/// a call that ran out of its step budget is C02's business (open findings there); comparisons involving one are counted, not judged
+fn budgeted(r: &Result<Vec<String>, String>) -> bool { matches!(r, Err(e) if e == "BUDGET" || e.starts_with("PANIC")) }     // panics likewise: C02 decides them
 
 fn group_by(rules: &[String], sizes: &[usize]) -> Vec<RuleGroup> {
     let mut out = Vec::new();
@@ -295,6 +297,7 @@ pub fn replay_schedules() {
                         Ok(mid) => run_keyed(&[RuleGroup::from_rules(rules[k..].to_vec())], mid, &[]),
                         Err(e) => Err(e.clone()),
                     };
+                    if budgeted(&mono) || budgeted(&regrouped) || budgeted(&staged) || budgeted(&pre) { sum.count("panic_or_step_budget (C02's domain)", 1); continue; }
                     if mono.as_ref().map(|m| m[0] != line).unwrap_or(true) { sum.nontrivial += 1; }
                     if mono == regrouped && mono == staged { sum.agree += 1; if sum.vectors % 211 == 0 { sum.sample(|| json!({"kind": "c10", "rules": rules, "split": k, "word": line, "result": format!("{:?}", mono)})); } }
                     else {
@@ -354,6 +357,7 @@ pub fn replay_schedules() {
                             } else { multi_ok = false; multi_case = json!({"line": l, "parts": format!("{:?}", parts), "whole": v1[0]}); }
                         } }
                     }
+                    if budgeted(&full) || budgeted(&pfull) || budgeted(&sfull) || singles.iter().any(budgeted) { sum.count("panic_or_step_budget (C02's domain)", 1); continue; }
                     if full.as_ref().map(|f| f != &lines).unwrap_or(true) { sum.nontrivial += 1; }
                     if full == e_full && pfull == e_perm && sfull == e_sub && multi_ok && full.as_ref().map(|f| f.len() == lines.len()).unwrap_or(true) { sum.agree += 1;
                         if sum.vectors % 223 == 0 { sum.sample(|| json!({"kind": "c11", "groups": groups.iter().map(|g| g.rule.clone()).collect::<Vec<_>>(), "lines": lines, "perm": perm, "result": format!("{:?}", full)})); } }
@@ -372,6 +376,8 @@ pub fn replay_schedules() {
                     let rec2 = v::record(30_000, false, false, move || asca::get_trace_string(&g, p, &i));
                     let runs: Vec<Result<Vec<String>, String>> = (0..=groups.len()).map(|m| run_keyed(&groups[..m], &[phrase.clone()], &into)).collect();
                     let full = runs.last().unwrap().clone();
+                    let tracer_budget = rec.result.is_err() || rec2.result.is_err();      // the tracer panicked or ran out of budget: C02's domain
+                    if runs.iter().any(budgeted) || tracer_budget { sum.count("panic_or_step_budget (C02's domain)", 1); continue; }
                     let mut problems: Vec<String> = Vec::new();
                     match (&rec.result, &rec2.result) {
                         (Ok(Ok(changes)), Ok(Ok(strs))) => {
